@@ -1,6 +1,8 @@
 (* C04 -- Bilinear 2-D interpolation returns the exact bilinear blend of the cell. *)
 From Coq Require Import List Bool Arith ZArith QArith Qcanon.
-From NI Require Import Num Base Lookup Linear LookupProofs LinearProofs LinearExact.
+From Coq Require Import Reals.
+From Flocq Require Import Core.
+From NI Require Import Num Base Lookup Linear LookupProofs LinearProofs LinearExact FloatRound FloatLinear.
 Import ListNotations.
 Local Open Scope nat_scope.
 
@@ -63,6 +65,42 @@ Theorem C04_bilinear_transpose :
     bilinear_lane NumQc y1 y2 x1 x2 y x z11 z21 z12 z22)%Qc.
 Proof. exact bilinear_lane_transpose. Qed.
 Print Assumptions C04_bilinear_transpose.
+
+(* "up to rounding": the three nested calc_frac of Bilinear in the standard model of floating-point
+   arithmetic, any u <= 2^-10: inside the cell the result is within 31 u (15.5 machine epsilons) of the
+   exact blend times the largest corner value (the harness compares with 16 machine epsilons) *)
+Theorem C04_float_bilinear_standard_model :
+  forall (u a1 a2 a3 a4 a5 a6 b1 b2 b3 b4 b5 b6 c1 c2 c3 c4 c5 c6 x1 x2 y1 y2 x y z11 z12 z21 z22 M : R),
+  (0 <= u -> u <= / 1024 -> x1 < x2 -> x1 <= x <= x2 -> y1 < y2 -> y1 <= y <= y2 ->
+  Rabs z11 <= M -> Rabs z12 <= M -> Rabs z21 <= M -> Rabs z22 <= M ->
+  Rabs a1 <= u -> Rabs a2 <= u -> Rabs a3 <= u -> Rabs a4 <= u -> Rabs a5 <= u -> Rabs a6 <= u ->
+  Rabs b1 <= u -> Rabs b2 <= u -> Rabs b3 <= u -> Rabs b4 <= u -> Rabs b5 <= u -> Rabs b6 <= u ->
+  Rabs c1 <= u -> Rabs c2 <= u -> Rabs c3 <= u -> Rabs c4 <= u -> Rabs c5 <= u -> Rabs c6 <= u ->
+  let w1 := cf_pert a1 a2 a3 a4 a5 a6 z11 z21 x1 x2 x in
+  let w2 := cf_pert b1 b2 b3 b4 b5 b6 z12 z22 x1 x2 x in
+  Rabs (cf_pert c1 c2 c3 c4 c5 c6 w1 w2 y1 y2 y - bl_exact x1 x2 y1 y2 x y z11 z12 z21 z22) <= 31 * u * M)%R.
+Proof. exact bilinear_error_in_cell. Qed.
+Print Assumptions C04_float_bilinear_standard_model.
+
+(* the same with Flocq's correctly rounded operations (18 roundings), when none of them underflows *)
+Theorem C04_float_bilinear_flocq :
+  forall (prec emin : Z) (prec_gt_0_ : FLX.Prec_gt_0 prec), (11 <= prec)%Z ->
+  forall (x1 x2 y1 y2 x y z11 z12 z21 z22 M : R),
+    (x1 < x2 -> x1 <= x <= x2 -> y1 < y2 -> y1 <= y <= y2 ->
+    Rabs z11 <= M -> Rabs z12 <= M -> Rabs z21 <= M -> Rabs z22 <= M ->
+    cf_no_underflow prec emin z11 z21 x1 x2 x -> cf_no_underflow prec emin z12 z22 x1 x2 x ->
+    cf_no_underflow prec emin (cf_fl prec emin z11 z21 x1 x2 x) (cf_fl prec emin z12 z22 x1 x2 x) y1 y2 y ->
+    Rabs (cf_fl prec emin (cf_fl prec emin z11 z21 x1 x2 x) (cf_fl prec emin z12 z22 x1 x2 x) y1 y2 y
+          - bl_exact x1 x2 y1 y2 x y z11 z12 z21 z22) <= 31 * uu prec * M)%R.
+Proof. exact bilinear_fl_error_in_cell. Qed.
+Print Assumptions C04_float_bilinear_flocq.
+
+Theorem C04_float_model_tie :
+  forall (prec emin : Z) ltbR lebR eqbR of_natR to_idxR remR powR (x1 x2 y1 y2 x y z11 z12 z21 z22 : R),
+    bilinear_lane (NumFl prec emin ltbR lebR eqbR of_natR to_idxR remR powR) x1 x2 y1 y2 x y z11 z12 z21 z22 =
+    cf_fl prec emin (cf_fl prec emin z11 z21 x1 x2 x) (cf_fl prec emin z12 z22 x1 x2 x) y1 y2 y.
+Proof. exact bilinear_lane_NumFl. Qed.
+Print Assumptions C04_float_model_tie.
 
 Example C04_ex :
   bilinear_interp NumQc false [qc 0 1; qc 2 1] [qc 0 1; qc 1 1]
